@@ -755,9 +755,47 @@ def malformed(ctx):
         ctx.malformed_outcome(tag + ':' + out)
 
 
+def isolation(ctx):
+    """objects built with DEFAULT arguments are independent: a fill ratio written through one chemistry's fitting
+    parameter must not show up in another default-built chemistry, nor in one built afterwards"""
+    from taurex.data.profiles.chemistry import TaurexChemistry
+    rng = ctx.rng
+    for _ in range(ctx.n(6, 40)):
+        nl = int(rng.integers(2, 12))
+        a = TaurexChemistry()
+        b = TaurexChemistry()
+        T = np.full(nl, 1000.0)
+        P = np.logspace(5, 0, nl)
+        for ch in (a, b):
+            ch.initialize_chemistry(nl, T, P)
+        before = np.array(b.mixProfile, float).copy()
+        default_ratio = float(b.fitting_parameters()['He_H2'][2]())
+        newr = float(rng.uniform(0.3, 3.0))
+        a.fitting_parameters()['He_H2'][3](newr)
+        a.initialize_chemistry(nl, T, P)
+        b.initialize_chemistry(nl, T, P)
+        c = TaurexChemistry()
+        c.initialize_chemistry(nl, T, P)
+        ctx.case(bucket='isolation:default-arguments')
+        rb = float(b.fitting_parameters()['He_H2'][2]())
+        rc = float(c.fitting_parameters()['He_H2'][2]())
+        if rb != default_ratio or rc != default_ratio or not np.array_equal(np.array(b.mixProfile, float), before) \
+                or not np.array_equal(np.array(c.mixProfile, float), before):
+            ctx.violation('default-chemistry-shares-state', 'writing the fill ratio of one default-built TaurexChemistry changed '
+                          'another default-built object (or one built afterwards): each object must keep the ratio requested '
+                          'for it', dict(kind='isolation', set_on_first=newr),
+                          dict(default=default_ratio, other=rb, later=rc))
+        ra = float(a.fitting_parameters()['He_H2'][2]())
+        if ra != newr:
+            ctx.violation('fill-ratio-setter-lost', 'the fill ratio written through the fitting parameter is not read back',
+                          dict(kind='isolation', set_on_first=newr), dict(read=ra))
+
+
 def run(ctx):
     quiet()
     validate_weights(ctx)
+    with np.errstate(all='ignore'):
+        isolation(ctx)
     n = ctx.n(3000, 45000)
     with np.errstate(all='ignore'):
         for k in range(n):
